@@ -129,7 +129,7 @@ fn probes(spec: &Spec, val: &Val) -> Vec<(Value, Value, Value)> {
         }
         Val::Less(b) | Val::LessEq(b) | Val::Greater(b) | Val::GreaterEq(b) => match b {
             Value::I(x) => {
-                for d in [-1i128, 0, 1] {
+                for d in [-10i128, 10, -1, 0, 1] {
                     if let Some(y) = x.checked_add(d) {
                         let v = Value::I(y);
                         use crate::oracle::num_cmp;
@@ -149,6 +149,14 @@ fn probes(spec: &Spec, val: &Val) -> Vec<(Value, Value, Value)> {
                 }
             }
             Value::F32(_) | Value::F64(_) => {
+                // farther probes first: they obtain the message even if the code is lenient right at the bound
+                let x = b.as_f64().unwrap();
+                for far in [x - 1.0, x + 1.0, x - x.abs() * 0.01 - 0.25, x + x.abs() * 0.01 + 0.25] {
+                    if far.is_finite() {
+                        let v = if matches!(b, Value::F32(_)) { Value::f32(far as f32) } else { Value::f64(far) };
+                        out.push((v.clone(), v, b.clone()));
+                    }
+                }
                 if let Some(d) = float_step(b, false) {
                     out.push((d.clone(), d, b.clone()));
                 }
